@@ -250,6 +250,96 @@ theorem unlockAcct_priv (ai : AcctInfo K P) (hl : ai.keyPriv = none) : (unlockAc
   | none => simp [hl, h]
   | some k => simp [h]
 
+/-- while locked, every derive-on-unlock entry is safe to process: the key derived for it is the object's key -/
+theorem unlock_entries_ok {hd : HD K P} (hlaw : hd.Lawful) (hn : hd.NoHardPub) {s : State K P} (h : Inv hd s) (hns : NoShadow s)
+    (hlk' : s.mem.locked = true) :
+    ∀ p ∈ s.mem.scopes, ∀ e ∈ p.2.dou, EntryOK hd (unlockScope p.2).acctInfo s.mem.heap e := by
+  intro p hp e he o ho ai ak hai hak k hk
+  obtain ⟨sc, sm⟩ := p
+  have hsm := hns sc sm hp
+  obtain ⟨o2, ho2, hdo⟩ := h.dou sc e (by rw [douAt_of_getSM hsm]; exact he)
+  have ho2' : o2 = o := by
+    rw [ho] at ho2; injection ho2 with x; injection x with y; exact y.symm
+  rw [ho2'] at hdo
+  have hmem : Obj.key o ∈ s.mem.heap := List.mem_of_getElem? ho
+  obtain ⟨row, hr, hap, _, _, _⟩ := (h.heap o hmem).chained hdo.notImp
+  rw [hdo.scope] at hr
+  have hai' : alookup ((unlockScope sm).acctInfo) o.acct = (alookup sm.acctInfo o.acct).map unlockAcct :=
+    alookup_map sm.acctInfo (fun _ ai => unlockAcct ai) o.acct
+  rw [hai'] at hai
+  cases hc0 : alookup sm.acctInfo o.acct with
+  | none => simp [hc0] at hai
+  | some ai0 =>
+    simp [hc0] at hai
+    subst hai
+    obtain ⟨row', hr', hok⟩ := h.cache sc o.acct ai0 (by rw [cacheAt_of_getSM hsm]; exact hc0)
+    rw [hr] at hr'; cases hr'
+    have hup := unlockAcct_priv ai0 (hok.locked hlk')
+    rw [hup.1, hok.enc] at hak
+    have hneu : hd.neuter ak = rowPub row := by
+      have hrk := h.disk.row sc o.acct row hr
+      cases row with
+      | dflt pub priv ne ni name =>
+        obtain ⟨root, ak', _, _, hnn, hp'⟩ := hrk
+        simp [rowPriv] at hak
+        rw [hp' ak hak]; exact hnn
+      | wo pub fp ne ni name schema ci => simp [rowPriv] at hak
+    obtain ⟨ap, q, hq1, hq2, hq3⟩ := hdo.pub
+    rw [hap] at hq1; cases hq1
+    obtain ⟨hb, hi⟩ := derive2pub_nonhard hd hn _ _ _ _ hq2
+    have := derive2_neuter hd hlaw ak o.branch o.index hb hi
+    rw [hdo.branch, hdo.index, hk, hneu] at this
+    rw [hdo.branch, hdo.index] at hq2
+    rw [hq2] at this
+    simp at this
+    rw [hq3, this]
+
+/-- whatever `Unlock` answers, the heap afterwards is the old heap with matching private keys filled in -/
+theorem opUnlock_privUpd {hd : HD K P} (hlaw : hd.Lawful) (hn : hd.NoHardPub) {s : State K P} (h : Inv hd s) (hns : NoShadow s)
+    (pass : Nat) : PrivUpd hd s.mem.heap (opUnlock Cfg.fixed hd s pass).1.mem.heap := by
+  unfold opUnlock
+  simp only [show Cfg.fixed.f2 = false from rfl, show Cfg.fixed.u2 = false from rfl, Bool.false_and, Bool.false_eq_true, if_false]
+  split
+  · exact PrivUpd.refl _ _
+  · split
+    · split <;> exact PrivUpd.refl _ _
+    · rename_i hlk
+      have hlk' : s.mem.locked = true := by simpa using hlk
+      split
+      · exact PrivUpd.refl _ _
+      · split
+        · exact PrivUpd.refl _ _
+        · rename_i scs heap' hu
+          exact (unlockScopes_spec s.mem.scopes s.mem.heap scs heap' (unlock_entries_ok hlaw hn h hns hlk') hu).2.1
+
+theorem opUnlock_ok_unlocked {hd : HD K P} (s : State K P) (pass : Nat) (hok : (opUnlock Cfg.fixed hd s pass).2.1 = .ok) :
+    (opUnlock Cfg.fixed hd s pass).1.mem.locked = false ∧ (opUnlock Cfg.fixed hd s pass).1.mem.watchOnly = false := by
+  unfold opUnlock at hok ⊢
+  simp only [show Cfg.fixed.f2 = false from rfl, show Cfg.fixed.u2 = false from rfl, Bool.false_and, Bool.false_eq_true, if_false] at hok ⊢
+  split at hok
+  · cases hok
+  · rename_i hwo
+    rw [if_neg hwo]
+    split at hok
+    · rename_i hl
+      rw [if_pos hl]
+      split at hok
+      · rename_i hp
+        rw [if_pos hp]
+        exact ⟨by simpa using hl, by simpa using hwo⟩
+      · cases hok
+    · rename_i hl
+      rw [if_neg hl]
+      split at hok
+      · cases hok
+      · rename_i hp
+        rw [if_neg hp]
+        split at hok
+        · cases hok
+        · rename_i scs heap' hu
+          simp only [hu]
+          exact ⟨trivial, by simpa using hwo⟩
+
 theorem opUnlock_inv {hd : HD K P} (hlaw : hd.Lawful) (hn : hd.NoHardPub) {s : State K P} (h : Inv hd s) (hns : NoShadow s)
     (pass : Nat) : Inv hd (opUnlock Cfg.fixed hd s pass).1 := by
   unfold opUnlock
@@ -269,47 +359,7 @@ theorem opUnlock_inv {hd : HD K P} (hlaw : hd.Lawful) (hn : hd.NoHardPub) {s : S
       · split
         · exact doLock_inv h
         · rename_i scs heap' hu
-          -- every queue entry is safe to process
-          have hpre : ∀ p ∈ s.mem.scopes, ∀ e ∈ p.2.dou, EntryOK hd (unlockScope p.2).acctInfo s.mem.heap e := by
-            intro p hp e he o ho ai ak hai hak k hk
-            obtain ⟨sc, sm⟩ := p
-            have hsm := hns sc sm hp
-            obtain ⟨o2, ho2, hdo⟩ := h.dou sc e (by rw [douAt_of_getSM hsm]; exact he)
-            have ho2' : o2 = o := by
-              rw [ho] at ho2; injection ho2 with x; injection x with y; exact y.symm
-            rw [ho2'] at hdo
-            have hmem : Obj.key o ∈ s.mem.heap := List.mem_of_getElem? ho
-            obtain ⟨row, hr, hap, _, _, _⟩ := (h.heap o hmem).chained hdo.notImp
-            rw [hdo.scope] at hr
-            have hai' : alookup ((unlockScope sm).acctInfo) o.acct = (alookup sm.acctInfo o.acct).map unlockAcct :=
-              alookup_map sm.acctInfo (fun _ ai => unlockAcct ai) o.acct
-            rw [hai'] at hai
-            cases hc0 : alookup sm.acctInfo o.acct with
-            | none => simp [hc0] at hai
-            | some ai0 =>
-              simp [hc0] at hai
-              subst hai
-              obtain ⟨row', hr', hok⟩ := h.cache sc o.acct ai0 (by rw [cacheAt_of_getSM hsm]; exact hc0)
-              rw [hr] at hr'; cases hr'
-              have hup := unlockAcct_priv ai0 (hok.locked hlk')
-              rw [hup.1, hok.enc] at hak
-              have hneu : hd.neuter ak = rowPub row := by
-                have hrk := h.disk.row sc o.acct row hr
-                cases row with
-                | dflt pub priv ne ni name =>
-                  obtain ⟨root, ak', _, _, hnn, hp'⟩ := hrk
-                  simp [rowPriv] at hak
-                  rw [hp' ak hak]; exact hnn
-                | wo pub fp ne ni name schema ci => simp [rowPriv] at hak
-              obtain ⟨ap, q, hq1, hq2, hq3⟩ := hdo.pub
-              rw [hap] at hq1; cases hq1
-              obtain ⟨hb, hi⟩ := derive2pub_nonhard hd hn _ _ _ _ hq2
-              have := derive2_neuter hd hlaw ak o.branch o.index hb hi
-              rw [hdo.branch, hdo.index, hk, hneu] at this
-              rw [hdo.branch, hdo.index] at hq2
-              rw [hq2] at this
-              simp at this
-              rw [hq3, this]
+          have hpre := unlock_entries_ok hlaw hn h hns hlk'
           obtain ⟨escs, hupd, hproc⟩ := unlockScopes_spec s.mem.scopes s.mem.heap scs heap' hpre hu
           subst escs
           have hgsm : ∀ sc, getSM ({ s with mem := { s.mem with locked := false, scopes := s.mem.scopes.map (fun p => (p.1, unlockScope p.2)), heap := heap' } } : State K P) sc
